@@ -219,7 +219,8 @@ fn segments_hitting(marks: &[usize], jitter: usize) -> Vec<(usize, u8)> {
 }
 
 fn long_reuse(rng: &mut Rng, tier: Tier, cases: &mut Vec<Case>) {
-    // (edges, sources, targets, reachable specs, unreachable specs); "-" = the unfiltered entry point `run`
+    // (edges, sources, targets, run specs); "-" = the unfiltered entry point `run`.  The specs are sorted into
+    // reachable / unreachable by a closure computed here (only to steer generation; the judge decides on its own).
     struct Shape {
         edges: Vec<(usize, usize)>,
         s: &'static str,
@@ -227,17 +228,37 @@ fn long_reuse(rng: &mut Rng, tier: Tier, cases: &mut Vec<Case>) {
         reach: Vec<&'static str>,
         unreach: Vec<&'static str>,
     }
+    fn shape(edges: Vec<(usize, usize)>, s: &'static str, t: &'static str, specs: &[&'static str]) -> Shape {
+        let (src, tgt) = (parse_list(s), parse_list(t));
+        let (mut reach, mut unreach) = (Vec::new(), Vec::new());
+        for spec in specs {
+            let f = parse_list(spec);
+            let mut seen = src.clone();
+            let mut changed = true;
+            while changed {
+                changed = false;
+                for (e, (u, v)) in edges.iter().enumerate() {
+                    if !f.contains(&e) && seen.contains(u) && !seen.contains(v) {
+                        seen.push(*v);
+                        changed = true;
+                    }
+                }
+            }
+            if tgt.is_empty() || tgt.iter().any(|x| seen.contains(x)) { reach.push(*spec) } else { unreach.push(*spec) }
+        }
+        Shape { edges, s, t, reach, unreach }
+    }
     let shapes = vec![
         // diamond with a back edge: two 2-hop paths to 3
-        Shape { edges: vec![(0, 1), (0, 2), (1, 3), (2, 3), (3, 0)], s: "0", t: "3", reach: vec!["-", "0", "1", "3", "0,3"], unreach: vec!["0,1", "2,3", "0,3,1"] },
+        shape(vec![(0, 1), (0, 2), (1, 3), (2, 3), (3, 0)], "0", "3", &["-", "0", "1", "3", "0,2", "0,1", "2,3", "0,3", "0,1,3"]),
         // path of three hops with a self loop and a parallel edge
-        Shape { edges: vec![(0, 1), (0, 1), (1, 1), (1, 2), (2, 3)], s: "0", t: "3", reach: vec!["-", "0", "1", "2"], unreach: vec!["0,1", "3", "4"] },
+        shape(vec![(0, 1), (0, 1), (1, 1), (1, 2), (2, 3)], "0", "3", &["-", "0", "1", "2", "0,1", "3", "4"]),
         // target unreachable without any filter (edge points the wrong way), 5 nodes, multi-source
-        Shape { edges: vec![(0, 1), (1, 2), (2, 0), (4, 3)], s: "0,1", t: "4", reach: vec![], unreach: vec!["-", "0", "3"] },
+        shape(vec![(0, 1), (1, 2), (2, 0), (4, 3)], "0,1", "4", &["-", "0", "3"]),
         // multi-target on 5 nodes
-        Shape { edges: vec![(0, 1), (0, 2), (1, 3), (2, 4), (4, 3)], s: "0", t: "3,4", reach: vec!["-", "0", "1", "2,3"], unreach: vec!["0,1", "1,2,3", "0,1,4"] },
+        shape(vec![(0, 1), (0, 2), (1, 3), (2, 4), (4, 3)], "0", "3,4", &["-", "0", "1", "2,4", "2,3", "0,1", "1,2,3", "0,1,4"]),
         // empty target set: always true
-        Shape { edges: vec![(0, 1), (1, 2), (2, 0)], s: "0", t: "-", reach: vec!["-", "0", "0,1,2"], unreach: vec![] },
+        shape(vec![(0, 1), (1, 2), (2, 0)], "0", "-", &["-", "0", "0,1,2"]),
     ];
     let marks: Vec<usize> = match tier {
         Tier::Quick => vec![1 << 8, 1 << 16],
